@@ -1,6 +1,6 @@
 (* C13 — pinned statements. Nothing but statements, [exact] and Print Assumptions. *)
 From Coq Require Import List NArith Bool Arith.
-From MV Require Import C06.Model C06.Spec C06.Inv C13.Model C13.Inv C13.Proofs.
+From MV Require Import C06.Model C06.Spec C06.Inv C13.Model C13.Spec C13.Inv C13.Proofs C13.Refine.
 Import ListNotations.
 
 (* [run true shape ls]: the repaired mechanism, an entry with one field per element of [shape]
@@ -96,6 +96,19 @@ Theorem c13_appended_not_late : forall (shape : list bool) (ls : list C13.Model.
   length (appended (C13.Model.run true shape ls)) = 1.
 Proof. exact appended_not_late. Qed.
 Print Assumptions c13_appended_not_late.
+
+(* sequential histories (every user action runs to completion before the next): the mechanism is exactly the
+   history specification [Spec.sstep]: the number of entries appended after every action, every result returned
+   by open / wait_for_data, and the entries themselves (own fields and, per slot, the value iff its guard was
+   dropped before the entry was closed); closing never panics *)
+Theorem c13_sequential_refines_spec : forall (shape : list bool) (ls : list C13.Model.label),
+  Forall (fun l => user13 l = true) ls ->
+  C13.Model.seq_observe true (C13.Model.init shape) ls = sobserve (sview_init shape) ls /\
+  rets (C13.Model.seq_run true shape ls) = sv_rets (srun shape ls) /\
+  appended (C13.Model.seq_run true shape ls) = sv_appended (srun shape ls) /\
+  panicked (C13.Model.seq_run true shape ls) = false.
+Proof. exact seq_refines_spec. Qed.
+Print Assumptions c13_sequential_refines_spec.
 
 (* the keep-alive component obeys C06's invariant, hence every C06 theorem *)
 Theorem c13_keep_alive_invariant : forall (shape : list bool) (ls : list C13.Model.label),
